@@ -17,6 +17,9 @@ JSON_CASES = True
 RULE = (
     "level A: every single-segment query (child and descendant) over the full selector alphabet x every document of "
     "the universe; B: every 2-(3-)selector list over a 12-selector alphabet; C: every 2-(3-)segment pipeline; "
+    "E: every 2-selector list over 8 (quick: 6, on every third document) selectors as the first segment (child and descendant) followed by every single-selector segment or a "
+    "2-selector list over 4 (thorough: 6) selectors, and preceded by every single-selector child segment; thorough: 3-segment pipelines of "
+    "2-selector lists over 4 selectors; "
     "D: every spelling (dot/bracket, quote style, escape style, <= d blanks at every ABNF S position) of the A-name, B and C(k=2) ASTs. "
     "state = distinct (query text, document); non-trivial = the reference nodelist is non-empty; "
     "outcome = the nodelist; compared through compile().findall, compile().finditer and env.findall"
@@ -36,6 +39,10 @@ SLICE_BOUNDS = [None, 0, 1, -1, 2, -2, 5, -5, 3]
 SLICE_STEPS = [None, 1, 2, -1, -2, 0]
 RED12 = [N("a"), N("b"), N("1"), I(0), I(1), I(-1), I(2), S(1, None, None), S(None, None, -1), S(0, 2, None),
          S(None, None, 2), W]
+
+RED8 = [N("a"), N("b"), I(0), I(1), I(-1), S(1, None, None), S(None, None, -1), W]
+RED6 = [N("a"), N("b"), I(0), I(-1), S(None, None, -1), W]
+RED4 = [N("a"), I(0), I(-1), W]
 
 EXTRA_DOCS = [
     [10, 11, 12, 13], [10, 11, 12, 13, 14], {"1": 10, "a": 11, "-1": 12, "0": 13}, "ab", 1, 1.5, True, False, None, 0,
@@ -114,6 +121,13 @@ def plan(tier, seed):
             for second in range(0, nseg, 4):
                 shards.append(("C", 3, first, (second, second + 4)))
             shards.append(("C", 2, first, None))
+    # E: selector lists inside pipelines (a list of >= 2 selectors followed / preceded by further segments)
+    nE = (len(RED8) if tier == "thorough" else len(RED6)) ** 2 * 2
+    for lo in range(0, nE, 8 if tier == "quick" else 4):
+        shards.append(("E", tier, lo, min(nE, lo + (8 if tier == "quick" else 4))))
+    if tier == "thorough":
+        for a in range(len(RED4) ** 2):
+            shards.append(("E3", a))
     # D: spellings
     d = 1 if tier == "quick" else 2
     names = names_upto(2) + LOOKALIKES
@@ -167,6 +181,29 @@ def run_shard(shard, acc):
                 for third in range(nseg):
                     q = Q(_mk_seg(first), _mk_seg(second), _mk_seg(third))
                     _eval_all("C", q, spell.text(q), docs, acc)
+    elif kind == "E":
+        _, tier, lo, hi = shard
+        docs = docs_C() if tier == "thorough" else docs_C()[::3]
+        r1 = RED8 if tier == "thorough" else RED6
+        firsts = [(k, [a, b]) for k in ("child", "desc") for a in r1 for b in r1][lo:hi]
+        seconds = [_mk_seg(i) for i in range(2 * len(RED12))]
+        pool = RED6 if tier == "thorough" else RED4
+        seconds += [(k, [a, b]) for k in (("child", "desc") if tier == "thorough" else ("child",)) for a in pool for b in pool]
+        for f in firsts:
+            for g in seconds:
+                q = Q(f, g)
+                _eval_all("E", q, spell.text(q), docs, acc)
+                if g[0] == "child" and len(g[1]) == 1:
+                    q = Q(g, f)
+                    _eval_all("E", q, spell.text(q), docs, acc)
+    elif kind == "E3":
+        docs = docs_C()
+        a, b = RED4[shard[1] // len(RED4)], RED4[shard[1] % len(RED4)]
+        lists = [[x, y] for x in RED4 for y in RED4]
+        for l2 in lists:
+            for l3 in lists:
+                q = Q(("child", [a, b]), ("child", l2), ("child", l3))
+                _eval_all("E", q, spell.text(q), docs, acc)
     elif kind == "Dn":
         _, d, lo, hi = shard
         names = (names_upto(2) + LOOKALIKES)[lo:hi]
